@@ -106,6 +106,27 @@ theorem C02_rejected (cfg : Cfg) (name : List Char) (items : List (Item × Optio
     unfold parseFilename; simp [hc, hm]
   refine ⟨hp, ?_, ?_⟩ <;> simp [getInfo, hp]
 
+/-- **rejection, stated from the input side** (contrapositive of `C02_no_misparse`): a name
+that is not an instantiation of the template — no choice of one string per token, each in its
+token's language, concatenates to the name (up to one trailing newline) — is rejected with
+ValueError by `parse_filename` and by `get_info` in the modes filename and both -/
+theorem C02_rejected_of_no_instance (cfg : Cfg) (name : List Char)
+    (items : List (Item × Option Key)) (hc : compile cfg cfg.path [] = .ok items)
+    (hno : ∀ ps, Inst items ps → name ≠ ps.flatten ∧ name ≠ ps.flatten ++ ['\n'])
+    (tc : Option Int) (h : Info) :
+    parseFilename cfg name = .error .valueError ∧
+      getInfo cfg .filename tc h name = .error .valueError ∧
+      getInfo cfg .both tc h name = .error .valueError := by
+  apply C02_rejected cfg name items hc _ tc h
+  cases hm : matchItems items name with
+  | none => rfl
+  | some c =>
+    exfalso
+    obtain ⟨ps, h1, h2, _⟩ := matchItems_sound items name c hm
+    rcases h2 with h2 | h2
+    · exact (hno ps h1).1 h2
+    · exact (hno ps h1).2 h2
+
 /-! ### Unknown / unfilled placeholders -/
 
 theorem pieces_error (cfg : Cfg) (ctx : Ctx) :
@@ -146,6 +167,75 @@ theorem C02_unknown_placeholder (cfg : Cfg) (tpl : List Tok) (ctx : Ctx)
     (h : ∃ t ∈ tpl, ∃ e, piece cfg ctx t = .error e) :
     format cfg tpl ctx = .error .unknownPlaceholder := by
   unfold format; rw [pieces_error cfg ctx tpl h]
+
+/-- from the input side: a temporal placeholder `get_filename` has no keyword for
+(decisecond, centisecond, microsecond and their `end_` variants) anywhere in the template -/
+theorem C02_unknown_time_placeholder (cfg : Cfg) (tpl : List Tok) (ctx : Ctx) (isEnd : Bool)
+    (f : TField) (hm : Tok.ph (.time isEnd f) ∈ tpl) (hf : fillable f = false) :
+    format cfg tpl ctx = .error .unknownPlaceholder := by
+  apply C02_unknown_placeholder
+  refine ⟨_, hm, .unknownPlaceholder, ?_⟩
+  cases f <;> simp [fillable] at hf <;> simp [piece, timePiece]
+
+/-- from the input side: a user placeholder whose name is neither filled, nor declared in
+`placeholder=`, nor part of the FileSet's path -/
+theorem C02_unknown_user_placeholder (cfg : Cfg) (tpl : List Tok) (ctx : Ctx) (n : String)
+    (hm : Tok.ph (.user n) ∈ tpl) (h1 : ctx.fill.lookup n = none) (h2 : cfg.env.lookup n = none)
+    (h3 : Tok.ph (.user n) ∉ cfg.path) :
+    format cfg tpl ctx = .error .unknownPlaceholder := by
+  apply C02_unknown_placeholder
+  refine ⟨_, hm, .unknownPlaceholder, ?_⟩
+  simp [piece, h1, Cfg.regexOf, h2, h3]
+
+theorem pieces_ok_of_all (cfg : Cfg) (ctx : Ctx) :
+    ∀ tpl : List Tok, (∀ t ∈ tpl, ∃ p, piece cfg ctx t = .ok p) →
+      ∃ ps, pieces cfg ctx tpl = .ok ps ∧
+        ∀ t ∈ tpl, ∀ p, piece cfg ctx t = .ok p → ∀ c ∈ p, c ∈ ps.flatten := by
+  intro tpl
+  induction tpl with
+  | nil => intro _; exact ⟨[], rfl, by simp⟩
+  | cons t ts ih =>
+    intro hall
+    obtain ⟨p, hp⟩ := hall t List.mem_cons_self
+    obtain ⟨ps, hps, hmem⟩ := ih (fun t ht => hall t (List.mem_cons_of_mem _ ht))
+    refine ⟨p :: ps, by simp [pieces, hp, hps], ?_⟩
+    intro t' ht' p' hp' c hc
+    rcases List.mem_cons.mp ht' with rfl | ht'
+    · rw [hp] at hp'
+      simp only [Except.ok.injEq] at hp'
+      subst hp'
+      simp [hc]
+    · have := hmem t' ht' p' hp' c hc
+      simp [this]
+
+/-- from the input side: every placeholder has a value, but some token writes a special
+character (`{ * [ < ( ? ! | \`) into the name -/
+theorem C02_unfilled_of_piece (cfg : Cfg) (tpl : List Tok) (ctx : Ctx)
+    (hall : ∀ t ∈ tpl, ∃ p, piece cfg ctx t = .ok p) (t : Tok) (ht : t ∈ tpl) (p : List Char)
+    (hp : piece cfg ctx t = .ok p) (c : Char) (hc : c ∈ p) (hsp : special c = true) :
+    format cfg tpl ctx = .error .unfilledPlaceholder := by
+  obtain ⟨ps, hps, hmem⟩ := pieces_ok_of_all cfg ctx tpl hall
+  unfold format
+  simp only [hps]
+  have : ps.flatten.any special = true := by
+    rw [List.any_eq_true]; exact ⟨c, hmem t ht p hp c hc, hsp⟩
+  simp [this]
+
+/-- a `*` wildcard in the template cannot be filled -/
+theorem C02_unfilled_star (cfg : Cfg) (tpl : List Tok) (ctx : Ctx)
+    (hall : ∀ t ∈ tpl, ∃ p, piece cfg ctx t = .ok p) (hstar : Tok.star ∈ tpl) :
+    format cfg tpl ctx = .error .unfilledPlaceholder :=
+  C02_unfilled_of_piece cfg tpl ctx hall .star hstar ['*'] rfl '*' (by simp) (by decide)
+
+/-- an undeclared user placeholder of the path that is not filled: its default regex `.+?`
+shows through -/
+theorem C02_unfilled_user (cfg : Cfg) (tpl : List Tok) (ctx : Ctx) (n : String)
+    (hall : ∀ t ∈ tpl, ∃ p, piece cfg ctx t = .ok p) (hm : Tok.ph (.user n) ∈ tpl)
+    (h1 : ctx.fill.lookup n = none) (h2 : cfg.env.lookup n = none)
+    (h3 : Tok.ph (.user n) ∈ cfg.path) :
+    format cfg tpl ctx = .error .unfilledPlaceholder := by
+  apply C02_unfilled_of_piece cfg tpl ctx hall _ hm ['.', '+', '?'] _ '?' (by simp) (by decide)
+  simp [piece, h1, Cfg.regexOf, h2, h3, URegex.src]
 
 /-- when every placeholder has a value but a special character survives in the name
 (a `*`, an unfilled user placeholder whose regex shows through, a special literal),
@@ -278,32 +368,58 @@ theorem C02_end_full (path : List Tok) (P Q : TField → Bool) (s e : DateTime)
   simp only [stdOf_nonEmpty P s hdP, mkDate_stdOf P s hvs hdP, stdOf_nonEmpty Q e hdQ, hmerge,
     mkDate_stdOf Q e hve hdQ, hle, ↓reduceIte, Bool.false_eq_true]
 
-/-- **end written with fewer fields** (hour, and possibly minute / second / millisecond;
-`SubDay`): the date and the missing fields come from the start (`combine`); when the result
-would precede the start it is moved to the next day — `shiftEnd … (resolution 2)` is
-`ofMicros (toMicros c + 86400000000)`, i.e. `+ 1 day` on the time line, so midnight, month end,
-year end and leap days are handled by the calendar (OverflowError beyond 9999-12-31). -/
+/-- **end written with fewer fields** — any non-empty set of sub-day end fields (`SubDay`:
+hour / minute / second / millisecond): the date and the missing fields come from the start
+(`combine`); when the result would precede the start it is moved by the superior resolution of
+the coarsest end field — `end_hour…` → 1 day, `end_minute…` → 1 hour, `end_second…` → 1 minute
+(the code's table; `end_millisecond` alone → 10 ms).  `shiftEnd st c δ` is
+`ofMicros (toMicros c + δ)`, i.e. the shift is on the time line, so midnight, month end, year
+end and leap days are handled by the calendar (OverflowError beyond 9999-12-31). -/
 theorem C02_end_partial (path : List Tok) (P Q : TField → Bool) (s e : DateTime)
     (hvs : Valid s) (hve : Valid e) (hdP : HasDate P)
     (hQ : ∀ f, path.contains (.ph (.time true f)) = Q f) (hq : SubDay Q) :
     coverageOf path (stdOf P s) (stdOf Q e) =
       (if lt (combine P Q s e) (truncTo P s) then
-        shiftEnd (truncTo P s) (combine P Q s e) (resolution 2)
+        shiftEnd (truncTo P s) (combine P Q s e) (resolution (endRank Q - 1))
       else .ok (some (truncTo P s), some (combine P Q s e))) ∧
-    resolution 2 = 86400000000 :=
-  ⟨coverageOf_subday path P Q s e hvs hve hdP hQ hq, rfl⟩
+    (Q .hour = true → resolution (endRank Q - 1) = 86400000000) ∧
+    (Q .hour = false → Q .minute = true → resolution (endRank Q - 1) = 3600000000) ∧
+    (Q .hour = false → Q .minute = false → Q .second = true →
+      resolution (endRank Q - 1) = 60000000) :=
+  ⟨coverageOf_subday path P Q s e hvs hve hdP hQ hq, endRank_units Q⟩
 
-/-- corollary: a start given at the template's resolution, an end whose written sub-day fields
-determine its time of day, and `s ≤ e < s + 1 day` ⇒ the parsed coverage is exactly `(s, e)`,
-also across midnight / month end / year end -/
+/-- corollary (`end_hour` given): a start at the template's resolution, an end whose minute /
+second / µs agree with `combine`, and `s ≤ e < s + 1 day` ⇒ the parsed coverage is exactly
+`(s, e)`, also across midnight / month end / year end -/
 theorem C02_end_partial_recovered (path : List Tok) (P Q : TField → Bool) (s e : DateTime)
     (hvs : Valid s) (hve : Valid e) (hdP : HasDate P)
-    (hQ : ∀ f, path.contains (.ph (.time true f)) = Q f) (hq : SubDay Q)
+    (hQ : ∀ f, path.contains (.ph (.time true f)) = Q f) (hq : SubDay Q) (hhour : Q .hour = true)
     (hs : truncTo P s = s)
     (hte : (combine P Q s e).mi = e.mi ∧ (combine P Q s e).s = e.s ∧ (combine P Q s e).us = e.us)
     (hle : toMicros s ≤ toMicros e) (hlt : toMicros e < toMicros s + 86400000000) :
     coverageOf path (stdOf P s) (stdOf Q e) = .ok (some s, some e) :=
-  coverageOf_subday_within_day path P Q s e hvs hve hdP hQ hq hs hte hle hlt
+  coverageOf_subday_within_day path P Q s e hvs hve hdP hQ hq hhour hs hte hle hlt
+
+/-- corollary (`end_minute` but no `end_hour`): `s ≤ e < s + 1 hour` ⇒ `(s, e)`, also when
+`e` lies in the next hour, on the next day, … -/
+theorem C02_end_partial_recovered_hour (path : List Tok) (P Q : TField → Bool) (s e : DateTime)
+    (hvs : Valid s) (hve : Valid e) (hdP : HasDate P)
+    (hQ : ∀ f, path.contains (.ph (.time true f)) = Q f) (hq : SubDay Q)
+    (hhour : Q .hour = false) (hmin : Q .minute = true) (hs : truncTo P s = s)
+    (hte : (combine P Q s e).s = e.s ∧ (combine P Q s e).us = e.us)
+    (hle : toMicros s ≤ toMicros e) (hlt : toMicros e < toMicros s + 3600000000) :
+    coverageOf path (stdOf P s) (stdOf Q e) = .ok (some s, some e) :=
+  coverageOf_subday_within_hour path P Q s e hvs hve hdP hQ hq hhour hmin hs hte hle hlt
+
+/-- corollary (`end_second` but neither `end_hour` nor `end_minute`): `s ≤ e < s + 1 minute` -/
+theorem C02_end_partial_recovered_minute (path : List Tok) (P Q : TField → Bool) (s e : DateTime)
+    (hvs : Valid s) (hve : Valid e) (hdP : HasDate P)
+    (hQ : ∀ f, path.contains (.ph (.time true f)) = Q f) (hq : SubDay Q)
+    (hhour : Q .hour = false) (hmin : Q .minute = false) (hsec : Q .second = true)
+    (hs : truncTo P s = s) (hte : (combine P Q s e).us = e.us)
+    (hle : toMicros s ≤ toMicros e) (hlt : toMicros e < toMicros s + 60000000) :
+    coverageOf path (stdOf P s) (stdOf Q e) = .ok (some s, some e) :=
+  coverageOf_subday_within_minute path P Q s e hvs hve hdP hQ hq hhour hmin hsec hs hte hle hlt
 
 /-! ### get_info -/
 
@@ -338,6 +454,54 @@ theorem C02_handler_overrides (cfg : Cfg) (tc : Option Int) (name : List Char) (
       .ok (hs, he, attrUpdate (attrUpdate [] (userCaps caps)) ha) := by
   unfold getInfo
   cases hsf : singleFile cfg.path <;> simp [hp, hr, Info.update]
+
+/-- `info_via = "both"`, handler reports **only the start**: it replaces the parsed start; the
+end stays the parsed one, else `start + time_coverage`, else the start -/
+theorem C02_handler_only_start (cfg : Cfg) (tc : Option Int) (name : List Char) (caps : Caps)
+    (st en : Option DateTime) (hs : DateTime) (ha : Attrs)
+    (hsf : singleFile cfg.path = false)
+    (hp : parseFilename cfg name = .ok caps)
+    (hr : retrieveTimeCoverage cfg caps = .ok (st, en)) :
+    getInfo cfg .both tc { start := some hs, stop := none, attrs := ha } name =
+      match en with
+      | some e => .ok (hs, e, attrUpdate (attrUpdate [] (userCaps caps)) ha)
+      | none =>
+        match tc with
+        | some δ =>
+          match addDelta hs δ with
+          | .ok e => .ok (hs, e, attrUpdate (attrUpdate [] (userCaps caps)) ha)
+          | .error err => .error err
+        | none => .ok (hs, hs, attrUpdate (attrUpdate [] (userCaps caps)) ha) := by
+  unfold getInfo
+  simp only [hsf, hp, hr, Info.update]
+  cases en <;> first | rfl | simp
+
+/-- handler reports **only the end**: it replaces the parsed end, the start stays the parsed
+one (and ValueError when the name yields no start) -/
+theorem C02_handler_only_end (cfg : Cfg) (tc : Option Int) (name : List Char) (caps : Caps)
+    (st en : Option DateTime) (he : DateTime) (ha : Attrs)
+    (hsf : singleFile cfg.path = false)
+    (hp : parseFilename cfg name = .ok caps)
+    (hr : retrieveTimeCoverage cfg caps = .ok (st, en)) :
+    getInfo cfg .both tc { start := none, stop := some he, attrs := ha } name =
+      match st with
+      | some s => .ok (s, he, attrUpdate (attrUpdate [] (userCaps caps)) ha)
+      | none => .error .valueError := by
+  unfold getInfo
+  simp only [hsf, hp, hr, Info.update]
+  cases st <;> first | rfl | simp
+
+/-- handler reports **only attributes**: the times are those of the file name, the attributes
+are written over the parsed ones -/
+theorem C02_handler_only_attrs (cfg : Cfg) (tc : Option Int) (name : List Char) (caps : Caps)
+    (s : DateTime) (e : DateTime) (ha : Attrs)
+    (hsf : singleFile cfg.path = false)
+    (hp : parseFilename cfg name = .ok caps)
+    (hr : retrieveTimeCoverage cfg caps = .ok (some s, some e)) :
+    getInfo cfg .both tc { start := none, stop := none, attrs := ha } name =
+      .ok (s, e, attrUpdate (attrUpdate [] (userCaps caps)) ha) := by
+  unfold getInfo
+  simp [hsf, hp, hr, Info.update]
 
 /-- a handler that reports nothing leaves the parsed information untouched -/
 theorem C02_handler_silent (a : Info) : a.update {} = a := by
@@ -429,7 +593,7 @@ theorem C02_roundtrip_full (cfg : Cfg) (ctx : Ctx) (h : RoundTrip cfg ctx) (tc :
 for `s ≤ e < s + 1 day` the reported coverage is `(s, e)` — also when `e` lies on the next
 day, in the next month or year — and the attributes are `a` -/
 theorem C02_roundtrip_subday (cfg : Cfg) (ctx : Ctx) (h : RoundTrip cfg ctx) (tc : Option Int)
-    (hd : Info) (hq : SubDay (Pe cfg))
+    (hd : Info) (hq : SubDay (Pe cfg)) (hhour : Pe cfg .hour = true)
     (hte : (combine (Ps cfg) (Pe cfg) ctx.s ctx.e).mi = ctx.e.mi ∧
       (combine (Ps cfg) (Pe cfg) ctx.s ctx.e).s = ctx.e.s ∧
       (combine (Ps cfg) (Pe cfg) ctx.s ctx.e).us = ctx.e.us)
@@ -440,7 +604,24 @@ theorem C02_roundtrip_subday (cfg : Cfg) (ctx : Ctx) (h : RoundTrip cfg ctx) (tc
         attrs.lookup n = some v := by
   apply roundtrip_tail cfg ctx h tc hd ctx.e
   exact C02_end_partial_recovered cfg.path (Ps cfg) (Pe cfg) ctx.s ctx.e h.goodS.1 h.goodE.1
-    h.date (fun _ => rfl) hq h.atRes hte hle hlt
+    h.date (fun _ => rfl) hq hhour h.atRes hte hle hlt
+
+/-- **round trip, end written with `end_minute` (…) but no `end_hour`**
+(`{…}{hour}{minute}-{end_minute}`): for `s ≤ e < s + 1 hour` the reported coverage is `(s, e)`
+— the end is moved to the next hour when it would precede the start -/
+theorem C02_roundtrip_subhour (cfg : Cfg) (ctx : Ctx) (h : RoundTrip cfg ctx) (tc : Option Int)
+    (hd : Info) (hq : SubDay (Pe cfg)) (hhour : Pe cfg .hour = false)
+    (hmin : Pe cfg .minute = true)
+    (hte : (combine (Ps cfg) (Pe cfg) ctx.s ctx.e).s = ctx.e.s ∧
+      (combine (Ps cfg) (Pe cfg) ctx.s ctx.e).us = ctx.e.us)
+    (hle : toMicros ctx.s ≤ toMicros ctx.e) (hlt : toMicros ctx.e < toMicros ctx.s + 3600000000) :
+    ∃ name attrs, format cfg cfg.path ctx = .ok name ∧
+      getInfo cfg .filename tc hd name = .ok (ctx.s, ctx.e, attrs) ∧
+      ∀ n v, Tok.ph (.user n) ∈ cfg.path → ctx.fill.lookup n = some v →
+        attrs.lookup n = some v := by
+  apply roundtrip_tail cfg ctx h tc hd ctx.e
+  exact C02_end_partial_recovered_hour cfg.path (Ps cfg) (Pe cfg) ctx.s ctx.e h.goodS.1 h.goodE.1
+    h.date (fun _ => rfl) hq hhour hmin h.atRes hte hle hlt
 
 /-- **round trip, template without end fields**: the end is `s + time_coverage`, or `s` for
 discrete files (no `time_coverage`) -/
@@ -529,3 +710,7 @@ assert_axioms C02_parse_pad C02_ofYearDoy_doyOf C02_toMicros_strictMono C02_lt_i
   C02_start_roundtrip C02_truncTo_id C02_end_default C02_end_full C02_getInfo_filename
   C02_handler_overrides C02_handler_silent C02_end_partial C02_end_partial_recovered
   C02_fixed_unambig C02_attrs_recovered C02_roundtrip_full C02_roundtrip_subday C02_roundtrip_default
+  C02_end_partial_recovered_hour C02_end_partial_recovered_minute C02_roundtrip_subhour
+  C02_rejected_of_no_instance C02_unknown_time_placeholder C02_unknown_user_placeholder
+  C02_unfilled_of_piece C02_unfilled_star C02_unfilled_user C02_handler_only_start
+  C02_handler_only_end C02_handler_only_attrs
